@@ -646,6 +646,17 @@ func (e *Engine) VerifyFunc(fc *FuncContract) *FuncResult {
 				name = "ensures:" + en.Tag
 			}
 			vc.oblige("ensures", name, out.pc, t, e.fset.Position(fn.Pos()), en.Text)
+			if vc.dry == 0 && len(vc.obls) > 0 {
+				o := vc.obls[len(vc.obls)-1]
+				if rv.Tuple != nil {
+					o.ResTerms = rv.Tuple
+				} else if !rv.isZero() {
+					o.ResTerms = []Val{rv}
+				}
+				ek, es := vc.elemKey(types.Typ[types.Uint8])
+				o.ExitE = vc.heapGet(out, ek, es).S
+				o.EntryE = vc.heapGet(x.entry, ek, es).S
+			}
 		}
 		// ghost frame: ghost variables that are not declared (modifies ghost(x)) keep their entry value
 		if !fc.ModAll && !fc.NoFrame {
